@@ -369,30 +369,7 @@ Definition from_string (d : dtype) (t : ptree) : res pyval :=
 End Text.
 
 (* ------------------------------------------------------------------ SecopClient.setParameterFromString *)
-(* json.dumps of the value handed to request(): tuples become lists; enum members and bytes are not serialisable *)
-Fixpoint jsonify (v : pyval) : res pyval :=
-  match v with
-  | PNone | PBool _ | PInt _ | PFloat _ | PStr _ => Ok v
-  | PList l | PTuple l =>
-      (fix go (l : list pyval) : res (list pyval) :=
-         match l with
-         | [] => Ok []
-         | x :: r => jsonify x >>= fun y => go r >>= fun ys => Ok (y :: ys)
-         end) l >>= fun ys => Ok (PList ys)
-  | PDict kv =>
-      (fix go (l : list (str * pyval)) : res (list (str * pyval)) :=
-         match l with
-         | [] => Ok []
-         | (k, x) :: r => jsonify x >>= fun y => go r >>= fun ys => Ok ((k, y) :: ys)
-         end) kv >>= fun ys => Ok (PDict ys)
-  | _ => Err EType
-  end.
-
-(* value = datatype.from_string(formatted); request(WRITEREQUEST, ident, value)  -- no export_value --
+(* value = datatype.export_value(datatype.from_string(formatted)); request(WRITEREQUEST, ident, value)
    followed by what the node does with the data: import_value + validate *)
 Definition set_from_string (C : codec) (E : pyenv) (dc d : dtype) (t : ptree) : res pyval :=
-  from_string C dc t >>= jsonify >>= fun j => wire E d j PNone.
-
-(* what it would be with export_value, for comparison in the statements *)
-Definition set_from_string_exported (C : codec) (E : pyenv) (dc d : dtype) (t : ptree) : res pyval :=
   from_string C dc t >>= dt_export C dc >>= fun j => wire E d j PNone.
